@@ -103,7 +103,7 @@ func (vc *FnVC) instr(ins ssa.Instruction) {
 				return
 			}
 			key, _, ft := vc.fieldKey(a.stT, x.Field)
-			vc.addrs[x] = &Addr{kind: aField, key: key, ref: a.ref, rootT: ft, T: ft, fieldInv: vc.fieldInvOf(a.stT, x.Field)}
+			vc.addrs[x] = &Addr{kind: aField, key: key, ref: a.ref, rootT: ft, T: ft, fieldInv: vc.fieldInvOf(a.stT, x.Field), ownerT: a.stT}
 			return
 		}
 		na := *a
@@ -118,7 +118,11 @@ func (vc *FnVC) instr(ins ssa.Instruction) {
 			vc.assert("index", vc.exprText(x), sAnd(sx("<=", "0", idx.S), sx("<", idx.S, sx("sl.len", s.S))))
 			key, _ := vc.memKey(t.Elem())
 			abs := vc.define("ix", SInt, sx("sl.ix", sx("sl.off", s.S), idx.S))
-			vc.addrs[x] = &Addr{kind: aMem, key: key, ref: sx("sl.base", s.S), idx: abs, rootT: t.Elem(), T: t.Elem()}
+			na := &Addr{kind: aMem, key: key, ref: sx("sl.base", s.S), idx: abs, rootT: t.Elem(), T: t.Elem()}
+			if oref, oT, ok := vc.fieldOwner(x.X); ok {
+				na.ownerRef, na.ownerT = oref, oT
+			}
+			vc.addrs[x] = na
 		case *types.Pointer:
 			at := t.Elem().Underlying().(*types.Array)
 			a := vc.addrOf(x.X)
@@ -768,6 +772,9 @@ func (vc *FnVC) doMapUpdate(x *ssa.MapUpdate) {
 	v := vc.val(x.Value)
 	dom, val, ln, _, _ := vc.mapKeys(t)
 	vc.assert("nil-map", vc.exprText(x.Map), sNot(sEq(m.S, "0")))
+	if oref, oT, ok := vc.fieldOwner(x.Map); ok {
+		vc.touchObj(oref, oT)
+	}
 	if f := vc.regimeFacts(v.S, t.Elem(), 0); f != "true" {
 		vc.assert("elem-invariant", "stored Element is non-nil", f)
 	}
@@ -783,6 +790,9 @@ func (vc *FnVC) doMapDelete(mv, kv ssa.Value) {
 	t := mv.Type().Underlying().(*types.Map)
 	m := vc.val(mv)
 	k := vc.val(kv)
+	if oref, oT, ok := vc.fieldOwner(mv); ok {
+		vc.touchObj(oref, oT)
+	}
 	dom, _, ln, _, _ := vc.mapKeys(t)
 	// delete on nil map is a no-op
 	d := sSelect(vc.cur(dom), m.S)
